@@ -19,21 +19,25 @@
 package main
 
 import (
+	"bytes"
 	"context"
 	"crypto/ecdsa"
 	"crypto/elliptic"
 	"crypto/rand"
 	"crypto/x509"
 	"crypto/x509/pkix"
+	"encoding/asn1"
 	"encoding/base64"
 	"encoding/hex"
 	"encoding/json"
+	"encoding/pem"
 	"errors"
 	"flag"
 	"fmt"
 	"io"
 	"log"
 	"math/big"
+	"net/http/httptest"
 	"os"
 	"sort"
 	"strconv"
@@ -42,7 +46,10 @@ import (
 	"sync/atomic"
 	"time"
 
+	"github.com/go-chi/chi/v5"
 	"go.step.sm/crypto/randutil"
+
+	"github.com/smallstep/certificates/api"
 
 	"github.com/smallstep/certificates/authority"
 	"github.com/smallstep/certificates/authority/config"
@@ -73,8 +80,9 @@ type CertSpec struct {
 }
 
 type Hist struct {
-	GOR   bool // generateOnRevoke
-	Cache int  // cache duration, seconds
+	IDP   string // CRL.IDPurl ("" = not configured)
+	GOR   bool   // generateOnRevoke
+	Cache int    // cache duration, seconds
 	Certs []CertSpec
 	Ops   []Op
 }
@@ -123,7 +131,27 @@ type ACME struct {
 	Key bool
 }
 
+// Inflight: a request of the OLD authority is in flight while ca.Reload builds the new one (ca.Reload calls New —
+// whose start-up generation runs under the new authority's own crlMutex — before it calls CloseForReload on the old
+// one). A generation of authority A (standing for a tick or for the regeneration of a revocation being served by A)
+// is parked inside its critical section at Park; authority B is built on A's db handle; optionally a revocation with
+// generate-on-revoke is served by B; then A's generation is released.
+type Inflight struct {
+	Park   string // after-getcrl | after-list
+	Revoke bool
+}
+
+// Handler: GET /crl and GET /1.0/crl through the real router (api.Route mounted at / and /1.0 as ca.go does), DER and ?pem,
+// after Gens forced generations and Revs revocations; and with publication disabled.
+type Handler struct {
+	Enabled bool
+	Gens    int
+	Revs    int
+}
+
 type Case struct {
+	Handler  *Handler  `json:",omitempty"`
+	Inflight *Inflight `json:",omitempty"`
 	Downtime *Downtime `json:",omitempty"`
 	ACME     *ACME     `json:",omitempty"`
 	Reload   *Reload   `json:",omitempty"`
@@ -147,13 +175,20 @@ type env struct {
 // harness drives explicitly (and the model sees). Ticks are exercised as forced generations.
 const minCache = 3600
 
-func newEnv(gor bool, cache int, hooks *ss.Hooks) *env {
+func newEnv(gor bool, cache int, hooks *ss.Hooks) *env { return newEnvIDP(gor, cache, hooks, "") }
+
+func newEnvIDP(gor bool, cache int, hooks *ss.Hooks, idp string) *env {
+	return newEnvFault(gor, cache, hooks, idp, nil)
+}
+
+// newEnvFault: additionally a fault layer under db.DB (see ss.WrapNoSQL)
+func newEnvFault(gor bool, cache int, hooks *ss.Hooks, idp string, fault *ss.NoSQLFault) *env {
 	if cache < minCache {
 		cache = minCache
 	}
 	d := &provisioner.Duration{Duration: time.Duration(cache) * time.Second}
-	o := fixture.Opts{CRL: &config.CRLConfig{Enabled: true, GenerateOnRevoke: gor, CacheDuration: d, RenewPeriod: d},
-		WrapDB: ss.Wrap(hooks)}
+	o := fixture.Opts{CRL: &config.CRLConfig{Enabled: true, GenerateOnRevoke: gor, CacheDuration: d, RenewPeriod: d, IDPurl: idp},
+		WrapDB: ss.WrapNoSQL(fault, hooks)}
 	return &env{ca: must(fixture.New(o))}
 }
 
@@ -161,7 +196,41 @@ type list struct {
 	num        int64
 	this, next int64
 	entries    []string
+	idp        string // fullName of the issuing distribution point
 	bad        string
+}
+
+var oidIDP = asn1.ObjectIdentifier{2, 5, 29, 28}
+
+// idpOf parses the issuingDistributionPoint extension: fullName URI, critical, onlyContainsUserCerts.
+func idpOf(rl *x509.RevocationList) (string, string) {
+	for _, ext := range rl.Extensions {
+		if !ext.Id.Equal(oidIDP) {
+			continue
+		}
+		if !ext.Critical {
+			return "", "IDP-NOT-CRITICAL"
+		}
+		var dp struct {
+			Name struct {
+				FullName []asn1.RawValue `asn1:"optional,tag:0"`
+			} `asn1:"optional,tag:0"`
+			OnlyUser bool `asn1:"optional,tag:1"`
+			OnlyCA   bool `asn1:"optional,tag:2"`
+		}
+		if rest, err := asn1.Unmarshal(ext.Value, &dp); err != nil || len(rest) != 0 || len(dp.Name.FullName) != 1 {
+			return "", "IDP-MALFORMED"
+		}
+		if !dp.OnlyUser || dp.OnlyCA {
+			return "", "IDP-SCOPE"
+		}
+		fn := dp.Name.FullName[0]
+		if fn.Class != 2 || fn.Tag != 6 {
+			return "", "IDP-NOT-URI"
+		}
+		return string(fn.Bytes), ""
+	}
+	return "", "IDP-MISSING"
 }
 
 // fetch obtains the served list and validates DER and signature.
@@ -182,6 +251,21 @@ func (e *env) fetch() *list {
 	l.num = rl.Number.Int64()
 	if err := rl.CheckSignatureFrom(e.ca.MiniCA.Intermediate); err != nil {
 		l.bad = "BADSIG"
+	}
+	// header: issued by the issuing certificate (name and key identifier), ECDSA-SHA256 for its P-256 key
+	inter := e.ca.MiniCA.Intermediate
+	if !bytes.Equal(rl.RawIssuer, inter.RawSubject) {
+		l.bad = "ISSUER"
+	}
+	if !bytes.Equal(rl.AuthorityKeyId, inter.SubjectKeyId) {
+		l.bad = "AKI"
+	}
+	if rl.SignatureAlgorithm != x509.ECDSAWithSHA256 {
+		l.bad = "SIGALG"
+	}
+	var idpBad string
+	if l.idp, idpBad = idpOf(rl); idpBad != "" {
+		l.bad = idpBad
 	}
 	if info.Number != l.num || info.ExpiresAt.Unix() != l.next {
 		l.bad = "INFO-MISMATCH"
@@ -285,18 +369,24 @@ func (e *env) record(serial string) (revokedAt int64, exp string, ok bool) {
 var errInjected = errors.New("injected storage fault")
 
 func runHist(h *Hist) (string, string) {
-	// one-shot fault: the next call of the armed operation fails before it is performed
-	armed := ""
-	hooks := &ss.Hooks{Before: func(op, key string) error {
-		if armed != "" && op == armed {
-			armed = ""
-			return errInjected
-		}
-		return nil
-	}}
+	// one-shot fault at the key/value store under db.DB: the next Get / List / Set of the armed table fails, so that the
+	// error handling of db.GetCRL / GetRevokedCertificates / StoreCRL themselves runs
+	var fault ss.NoSQLFault
 	arm := func(f int) {
-		armed = map[int]string{2: "getcrl", 3: "listrevoked", 4: "storecrl"}[f]
+		want := map[int][2]string{2: {"get", "x509_crl"}, 3: {"list", "revoked_x509_certs"}, 4: {"set", "x509_crl"}}[f]
+		if want[0] == "" {
+			fault = nil
+			return
+		}
+		fault = func(op, bucket string, key []byte) error {
+			if op == want[0] && bucket == want[1] {
+				fault = nil
+				return errInjected
+			}
+			return nil
+		}
 	}
+	var hooks *ss.Hooks
 	failSuffix := func(f int) string {
 		if f == 0 {
 			return ""
@@ -306,7 +396,7 @@ func runHist(h *Hist) (string, string) {
 	if h.Cache < minCache {
 		h.Cache = minCache // also for replayed cases generated before minCache existed
 	}
-	e := newEnv(h.GOR, h.Cache, hooks)
+	e := newEnvFault(h.GOR, h.Cache, hooks, h.IDP, &fault)
 	defer func() { e.ca.Close() }()
 	certs := make([]*x509.Certificate, len(h.Certs))
 	for i, cs := range h.Certs {
@@ -383,7 +473,7 @@ func runHist(h *Hist) (string, string) {
 			if err := e.ca.Auth.GenerateCertificateRevocationList(); err != nil {
 				ans = "err"
 			}
-			armed = ""
+			fault = nil
 			l := observe()
 			thread(fmt.Sprintf("g:%d%s", l.this, failSuffix(op.Fail)), ans)
 		case "restart":
@@ -418,7 +508,7 @@ func runHist(h *Hist) (string, string) {
 			case 500:
 				ans = "err" // the record is stored, the regeneration failed
 			}
-			armed = ""
+			fault = nil
 			at, exp, ok := e.record(serial)
 			l := observe()
 			if !ok {
@@ -428,6 +518,23 @@ func runHist(h *Hist) (string, string) {
 			if before && code == 200 {
 				ans += "+VIOLATION=second-revocation-acknowledged"
 			}
+			// generate-on-revoke: a list fetched after the acknowledgement contains the serial (unless long expired)
+			if h.GOR && code == 200 && l.bad == "" {
+				listed := false
+				for _, en := range l.entries {
+					if strings.HasPrefix(en, c.X(serial)+":") {
+						listed = true
+					}
+				}
+				expired := false
+				if x := wantExp[serial]; x != "-" && x != "" {
+					n, _ := strconv.ParseInt(x, 10, 64)
+					expired = n < l.this-3600
+				}
+				if !listed && !expired {
+					ans += "+VIOLATION=acknowledged-revocation-missing-from-served-list"
+				}
+			}
 			if ok && !before && exp != wantExp[serial] {
 				ans += "+VIOLATION=record-expiry-" + exp + "-differs-from-certificate-" + wantExp[serial]
 			}
@@ -435,10 +542,20 @@ func runHist(h *Hist) (string, string) {
 			thread(fmt.Sprintf("r:%s:%d:%s:%s:%d%s", c.X(serial), at, wantExp[serial], c.B(h.GOR), l.this, failSuffix(fail)), ans)
 		}
 	}
-	in := fmt.Sprintf("h cache=%d reqs=%s evs=%s", h.Cache, strings.Join(reqs, ";"), c.List(evs))
+	in := fmt.Sprintf("h cache=%d idp=%s dns=%s reqs=%s evs=%s", h.Cache, c.X(h.IDP), c.X(fixture.DNSName), strings.Join(reqs, ";"), c.List(evs))
 	impl := strings.Join(answers, ",")
 	for _, l := range lists {
 		impl += " " + l
+	}
+	got := e.fetch().idp
+	impl += " idp=" + c.X(got)
+	// the property's "served lists are the CA's": the distribution point names the configured URL or the CA's own /1.0/crl
+	want := h.IDP
+	if want == "" {
+		want = "https://" + fixture.DNSName + "/1.0/crl"
+	}
+	if got != want {
+		impl += " VIOLATION=distribution-point-differs-from-configuration"
 	}
 	return in, impl
 }
@@ -834,6 +951,185 @@ func runReload(rl *Reload) (string, string, string) {
 	return in, "ok", "ok"
 }
 
+// runHandler returns one model line per request joined by " ;; " is not possible (one line = one case): it emits the
+// four requests of one case as four rows through emit.
+func runHandler(hd *Handler, emit func(in, impl string)) {
+	var e *env
+	if hd.Enabled {
+		e = newEnv(true, minCache, nil)
+	} else {
+		e = &env{ca: must(fixture.New(fixture.Opts{}))}
+	}
+	defer e.ca.Close()
+	crl := "none"
+	var served *list
+	if hd.Enabled {
+		for i := 0; i < hd.Gens; i++ {
+			e.ca.Auth.GenerateCertificateRevocationList()
+		}
+		for i := 0; i < hd.Revs; i++ {
+			e.revokeToken(e.issue().SerialNumber.String())
+		}
+		l := e.fetch()
+		served = l
+		crl = fmt.Sprintf("%d:%d:%d", l.num, l.this, l.next)
+	}
+	mux := chi.NewRouter()
+	api.Route(mux)
+	mux.Route("/1.0", func(r chi.Router) { api.Route(r) })
+	for _, path := range []string{"/crl", "/1.0/crl", "/crl?pem", "/1.0/crl?pem=1"} {
+		req := httptest.NewRequest("GET", "https://"+fixture.DNSName+path, nil)
+		req = req.WithContext(authority.NewContext(req.Context(), e.ca.Auth))
+		w := httptest.NewRecorder()
+		mux.ServeHTTP(w, req)
+		pemReq := strings.Contains(path, "pem")
+		in := fmt.Sprintf("rsp path=%s enabled=%s pem=%s crl=%s", c.X(path), c.B(hd.Enabled), c.B(pemReq), crl)
+		impl := strconv.Itoa(w.Code)
+		if w.Code == 200 {
+			body := w.Body.Bytes()
+			gotPEM := w.Header().Get("Content-Type") == "application/x-pem-file"
+			if gotPEM {
+				if blk, _ := pem.Decode(body); blk != nil && blk.Type == "X509 CRL" {
+					body = blk.Bytes
+				} else {
+					body = nil
+				}
+			} else if w.Header().Get("Content-Type") != "application/pkix-crl" {
+				impl += " CONTENT-TYPE"
+			}
+			wantDisp := map[bool]string{false: `attachment; filename="crl.der"`, true: `attachment; filename="crl.pem"`}[gotPEM]
+			if w.Header().Get("Content-Disposition") != wantDisp {
+				impl += " DISPOSITION"
+			}
+			exp, err := time.Parse(time.RFC1123, w.Header().Get("Expires"))
+			num := int64(-1)
+			if rl, err2 := x509.ParseRevocationList(body); err2 == nil && rl.Number != nil {
+				num = rl.Number.Int64()
+				if rl.CheckSignatureFrom(e.ca.MiniCA.Intermediate) != nil {
+					impl += " BADSIG"
+				}
+			} else {
+				impl += " BADDER"
+			}
+			if err != nil {
+				impl += " EXPIRES-HEADER"
+			}
+			impl += fmt.Sprintf(" exp=%d pem=%s n=%d", exp.Unix(), c.B(gotPEM), num)
+			if served != nil && (exp.Unix() != served.next || num != served.num || gotPEM != pemReq) {
+				impl += " VIOLATION=response-differs-from-stored-list"
+			}
+		} else if hd.Enabled {
+			impl += " VIOLATION=list-not-served"
+		}
+		emit(in, impl)
+	}
+}
+
+func runInflight(f *Inflight) (string, string, string) {
+	var mu sync.Mutex
+	var stored []int64
+	var armed int32
+	parked := make(chan struct{}, 1)
+	release := make(chan struct{})
+	hooks := &ss.Hooks{After: func(op, key string, ok bool, err error) error {
+		if op == "storecrl" && err == nil {
+			n, _ := ss.CRLKey(key)
+			mu.Lock()
+			stored = append(stored, n)
+			mu.Unlock()
+		}
+		if (f.Park == "after-getcrl" && op == "getcrl") || (f.Park == "after-list" && op == "listrevoked") {
+			if atomic.CompareAndSwapInt32(&armed, 1, 0) {
+				parked <- struct{}{}
+				<-release
+			}
+		}
+		return nil
+	}}
+	in := fmt.Sprintf("inflight park=%s revoke=%s", f.Park, c.B(f.Revoke))
+	hour := &provisioner.Duration{Duration: time.Hour}
+	cfg := func() *config.CRLConfig {
+		return &config.CRLConfig{Enabled: true, GenerateOnRevoke: true, CacheDuration: hour, RenewPeriod: hour}
+	}
+	a := must(fixture.New(fixture.Opts{CRL: cfg(), WrapDB: ss.Wrap(hooks)}))
+	defer os.RemoveAll(a.DBDir)
+	atomic.StoreInt32(&armed, 1)
+	g := make(chan error, 1)
+	go func() { g <- a.Auth.GenerateCertificateRevocationList() }()
+	select {
+	case <-parked:
+	case <-time.After(3 * time.Minute):
+		return in, "ok", "ok" // inconclusive
+	}
+	// ca.Reload, first half: the new authority on the same database handle, then (optionally) a revocation served
+	// by it. If the two authorities exclude each other, this blocks on the mutex the parked generation holds: then
+	// the parked generation is released (after 300 ms) and everything simply happens one after the other.
+	var b *fixture.CA
+	var problems []string
+	serial := ""
+	var acked *list
+	done := make(chan struct{})
+	go func() {
+		defer close(done)
+		b = must(fixture.New(fixture.Opts{CRL: cfg(), NoDB: true, From: a, Extra: []authority.Option{authority.WithDatabase(a.Auth.GetDatabase())}}))
+		eb := &env{ca: b}
+		if f.Revoke {
+			crt := eb.issue()
+			serial = crt.SerialNumber.String()
+			if eb.revokeToken(serial) != 200 {
+				problems = append(problems, "revocation-refused")
+			}
+		}
+		acked = eb.fetch()
+	}()
+	released := false
+	select {
+	case <-done:
+	case <-time.After(300 * time.Millisecond):
+		close(release)
+		released = true
+		<-done
+	}
+	eb := &env{ca: b}
+	if !released {
+		close(release) // the old authority's request goes on
+	}
+	select {
+	case <-g:
+	case <-time.After(3 * time.Minute):
+		problems = append(problems, "generation-stuck")
+	}
+	a.Auth.CloseForReload() // ca.Reload, second half
+	final := eb.fetch()
+	mu.Lock()
+	for i := 1; i < len(stored); i++ {
+		if stored[i] <= stored[i-1] {
+			problems = append(problems, fmt.Sprintf("stored-number-%d-after-%d", stored[i], stored[i-1]))
+			break
+		}
+	}
+	mu.Unlock()
+	if final.num < acked.num {
+		problems = append(problems, fmt.Sprintf("served-number-went-back-%d-after-%d", final.num, acked.num))
+	}
+	if f.Revoke {
+		found := false
+		for _, en := range final.entries {
+			if strings.HasPrefix(en, c.X(serial)+":") {
+				found = true
+			}
+		}
+		if !found {
+			problems = append(problems, "acknowledged-revocation-missing-from-served-list")
+		}
+	}
+	b.Auth.Shutdown()
+	if len(problems) > 0 {
+		return in, "VIOLATION " + strings.Join(problems, ","), "ok"
+	}
+	return in, "ok", "ok"
+}
+
 func runDowntime(dt *Downtime) (string, string, string) {
 	type st struct {
 		num int64
@@ -1011,7 +1307,7 @@ func cornerHists() []*Hist {
 	failing := []Op{{"gen", 0, 2}, {"gen", 0, 0}, {"gen", 0, 3}, {"rev", 0, 4}, {"gen", 0, 4}, {"rev", 0, 0}, {"rev", 1, 3}, {"gen", 0, 0}, {"restart", 0, 0}, {"rev", 2, 2}, {"gen", 0, 0}}
 	return []*Hist{
 		{GOR: true, Cache: 3600, Certs: all, Ops: ops2},
-		{GOR: false, Cache: 86400, Certs: all, Ops: ops2},
+		{IDP: "https://crl.example.com/ca.crl", GOR: false, Cache: 86400, Certs: all, Ops: ops2},
 		{GOR: true, Cache: 604800, Certs: all[:2], Ops: []Op{{"gen", 0, 0}, {"gen", 0, 0}, {"restart", 0, 0}, {"rev", 0, 0}, {"rev", 1, 0}, {"rev", 1, 0}}},
 		{GOR: true, Cache: 7200, Certs: all[:3], Ops: failing},
 		{GOR: false, Cache: 3600, Certs: all[:3], Ops: failing},
@@ -1019,7 +1315,7 @@ func cornerHists() []*Hist {
 }
 
 func genHist(r *c.Rng) *Hist {
-	h := &Hist{GOR: !r.Chance(1, 3), Cache: c.Pick(r, []int{3600, 7200, 43200, 86400, 604800})}
+	h := &Hist{IDP: c.Pick(r, []string{"", "", "https://crl.example.com/ca.crl", "http://10.0.0.1/crl?x=1", "ldap://dir.example.com/cn=ca"}), GOR: !r.Chance(1, 3), Cache: c.Pick(r, []int{3600, 7200, 43200, 86400, 604800})}
 	nc := 1 + r.Intn(6)
 	for i := 0; i < nc; i++ {
 		switch r.Intn(5) {
@@ -1078,6 +1374,11 @@ func runCase(o *c.Out, k *Case) {
 			in, impl, want = runReload(k.Reload)
 		case k.Downtime != nil:
 			in, impl, want = runDowntime(k.Downtime)
+		case k.Inflight != nil:
+			in, impl, want = runInflight(k.Inflight)
+		case k.Handler != nil:
+			runHandler(k.Handler, func(i, m string) { o.Case(i+" "+caseField(k), m) })
+			return
 		case k.ACME != nil:
 			in, impl, want = runACME(k.ACME)
 		}
@@ -1096,7 +1397,7 @@ func main() {
 	n := flag.Int("n", 100, "number of generated cases")
 	out := flag.String("out", "", "output file")
 	replay := flag.String("replay", "", "file of lines with a case=x<hex json> field to re-run")
-	stage := flag.String("stage", "hist", "hist | sched | reload | downtime | acme | race")
+	stage := flag.String("stage", "hist", "hist | handler | sched | reload | inflight | downtime | acme | race")
 	flag.Parse()
 	o, err := c.NewOut(*out)
 	if err != nil {
@@ -1143,6 +1444,19 @@ func main() {
 		for i := 0; i < *n; i++ {
 			rr := r.Fork()
 			runCase(o, &Case{Race: &Race{GOR: !rr.Chance(1, 3), Revokers: 1 + rr.Intn(8), Gens: rr.Intn(4), Fetchers: rr.Intn(3)}})
+		}
+	case "handler":
+		runCase(o, &Case{Handler: &Handler{Enabled: false}})
+		runCase(o, &Case{Handler: &Handler{Enabled: true}})
+		for i := 0; i < *n; i++ {
+			rr := r.Fork()
+			runCase(o, &Case{Handler: &Handler{Enabled: !rr.Chance(1, 6), Gens: rr.Intn(4), Revs: rr.Intn(3)}})
+		}
+	case "inflight":
+		log.SetOutput(io.Discard)
+		for _, f := range []Inflight{{"after-getcrl", false}, {"after-list", false}, {"after-getcrl", true}, {"after-list", true}} {
+			f := f
+			runCase(o, &Case{Inflight: &f})
 		}
 	case "downtime":
 		log.SetOutput(io.Discard)
